@@ -7,6 +7,7 @@ package peerfam
 import (
 	"context"
 	"errors"
+	"fmt"
 	"io"
 	"net"
 	"sync"
@@ -193,7 +194,9 @@ func (c *Conn) IsClosed() bool {
 	defer c.mu.Unlock()
 	return c.closed
 }
-func (c *Conn) LocalAddr() net.Addr                    { return addr("local") }
+
+// LocalAddr carries the harness tag so that a *peer.Connection can be mapped back.
+func (c *Conn) LocalAddr() net.Addr                    { return addr(fmt.Sprintf("c%d", c.Tag)) }
 func (c *Conn) RemoteAddr() net.Addr                   { return addr("remote") }
 func (c *Conn) IsDialer() bool                         { return c.Dialer }
 func (c *Conn) TransportType() transport.TransportType { return transport.TransportType("mem") }
@@ -216,6 +219,7 @@ func (t *Transport) Close() error                  { return nil }
 func AgentIDOf(n int) identity.AgentID {
 	var id identity.AgentID
 	id[0] = 0xA0
+	id[1] = byte(n) // ShortString() shows only the leading bytes
 	id[15] = byte(n)
 	return id
 }
